@@ -321,7 +321,13 @@ def check_history(case):
              "field": [float(c) for c in gen.lattice_of(g2).cell]}
     effective = 0
     inplace_after_effective = False
+    retired = []  # sources of copying steps: must stay untouched whatever happens to the copies later
     for si, step in enumerate(case["steps"]):
+        for okind, x, sn, when in retired:
+            now = {"region": snap_region, "mesh": snap_mesh, "field": snap_field}[okind](x)
+            if now != sn:
+                raise Violation("copy-source-modified-later", f"{okind}: the source of the copying step {when} changed "
+                                                              f"during a later step (shared state between copy and source)")
         kind = step[0]
         if kind == "rot" and (nd < 2 or step[1] == step[2]):
             continue
@@ -377,6 +383,7 @@ def check_history(case):
                         raise Violation("copy-returned-self", f"{o.kind} step {si} {kind}")
                     if o.snap(x) != before:
                         raise Violation("copy-modified-source", f"{o.kind} step {si} {kind}: the copying form changed the source")
+                    retired.append((o.kind, x, before, si))
                 results.append(r)
             o.a, o.b = results
             for x, nm in ((o.a, "object"), (o.b, "twin")):
@@ -421,6 +428,10 @@ def check_history(case):
             if effective >= 1 and step[-1]:
                 inplace_after_effective = True
             effective += 1
+    for okind, x, sn, when in retired:
+        now = {"region": snap_region, "mesh": snap_mesh, "field": snap_field}[okind](x)
+        if now != sn:
+            raise Violation("copy-source-modified-later", f"{okind}: the source of the copying step {when} changed later")
     tag(f"effective={min(effective, 6)}")
     if effective >= 3 and inplace_after_effective:
         tag("nontrivial-history")
